@@ -317,6 +317,83 @@ def t1(ctx):
     from dpvc import forwarding
     forwarding.obligations(ctx, "is_bipartitions_updated", lambda mn: mn in ("dendropy.datamodel.treecollectionmodel", "dendropy.calculate.treesum"),
                            "flag-reaches", exact=True, native=native_stale_summary)
+    # ... and use_tree_weights reaches the distribution that weighs (or does not weigh) the trees, from every function and class that accepts it
+    forwarding.obligations(ctx, "use_tree_weights", lambda mn: mn in ("dendropy.datamodel.treecollectionmodel", "dendropy.calculate.treesum",
+                                                                      "dendropy.application.sumtrees"),
+                           "weights-flag-reaches", exact=False, native=native_weights_flag_ignored)
+    options_handed_on(ctx)
+
+
+def options_handed_on(ctx):
+    """TreeList._get_tree_array(kwargs_dict) builds the array every TreeList summary goes through: each option of TreeArray.from_tree_list is taken
+    from the caller's keywords under its own name (AST): an option left out of the call silently becomes the default"""
+    import ast
+    import time
+    from dpvc import frontend
+    t0 = time.time()
+    TCM = "dendropy.datamodel.treecollectionmodel"
+    m, ci, fn = frontend.resolve(TCM + ":TreeList._get_tree_array")
+    m2, ci2, callee = frontend.resolve(TCM + ":TreeArray.from_tree_list")
+    ctx.add_function(TCM + ":TreeList._get_tree_array")
+    opts = [a.arg for a in callee.args.args if a.arg not in ("cls", "self", "trees")]
+    calls = [n for n in ast.walk(fn) if isinstance(n, ast.Call) and isinstance(n.func, ast.Attribute) and n.func.attr == "from_tree_list"]
+    kwname = fn.args.args[1].arg if len(fn.args.args) > 1 else None
+    failures = []
+    for o in opts:
+        ok = len(calls) == 1
+        if ok:
+            v = [k.value for k in calls[0].keywords if k.arg == o]
+            ok = (len(v) == 1 and isinstance(v[0], ast.Call) and isinstance(v[0].func, ast.Attribute) and v[0].func.attr in ("pop", "get")
+                  and isinstance(v[0].func.value, ast.Name) and v[0].func.value.id == kwname and v[0].args
+                  and isinstance(v[0].args[0], ast.Constant) and v[0].args[0].value == o)
+        name = "TreeList._get_tree_array.hands-on[%s -> TreeArray.from_tree_list]" % o
+        ctx.obligation(name, "proved" if ok else "refuted", "ast-scan", time.time() - t0, TCM + ":TreeList._get_tree_array",
+                       detail=None if ok else "the option %s of from_tree_list is not taken from the caller's keywords" % o)
+        if not ok:
+            failures.append((name, o))
+    for name, o in failures:
+        w = native_weights_flag_ignored() if o == "use_tree_weights" else (native_stale_summary() if o == "is_bipartitions_updated" else None)
+        if w:
+            ctx.fail(name, dict(dict(w), key="option|%s|%s" % (o, w.get("key", ""))), detail="the option %s is not handed on; native: %s" % (o, w.get("outcome")), kind="T1")
+        else:
+            ctx.fail(name, dict(key="site:_get_tree_array.%s" % o), detail="the option %s of TreeArray.from_tree_list is not handed on by TreeList._get_tree_array" % o,
+                     kind="T1", no_input=True)
+
+
+def native_weights_flag_ignored(modname=None, qual=None):
+    """weighted trees summarised with use_tree_weights=False through every route that takes the flag: the counts are plain tree counts"""
+    import dendropy
+    ns = dendropy.TaxonNamespace(["A", "B", "C", "D"])
+    text = "[&W 5] ((A,B),(C,D));\n[&W 1] ((A,C),(B,D));\n[&W 1] ((A,C),(B,D));\n"
+
+    def trees():
+        return dendropy.TreeList.get(data=text, schema="newick", taxon_namespace=ns, rooting="force-rooted", store_tree_weights=True)
+    ab = ns.taxa_bitmask(labels=["A", "B"])
+    routes = [("TreeList.split_distribution(use_tree_weights=False)", lambda: trees().split_distribution(use_tree_weights=False)),
+              ("TreeList.as_tree_array(use_tree_weights=False)", lambda: trees().as_tree_array(use_tree_weights=False).split_distribution),
+              ("TreeArray.from_tree_list(use_tree_weights=False)", lambda: dendropy.TreeArray.from_tree_list(trees(), use_tree_weights=False).split_distribution),
+              ("TreeArray(use_tree_weights=False) + add_tree", lambda: _added_w(trees(), ns))]
+    for name, f in routes:
+        try:
+            sd = f()
+            got = sd[ab]
+        except Exception as e:  # noqa
+            return dict(key=name, outcome="%s: %s: %s" % (name, type(e).__name__, e))
+        if abs(got - 1.0 / 3) > 1e-9:
+            return dict(key=name, outcome="%s on trees weighted 5, 1, 1: frequency of AB|CD %r, one tree in three has it" % (name, got))
+    tl = trees()
+    con = tl.consensus(min_freq=0.5, use_tree_weights=False)
+    if any(set(l.taxon.label for l in nd.leaf_iter()) == {"A", "B"} for nd in con.postorder_internal_node_iter()):
+        return dict(key="TreeList.consensus", outcome="TreeList.consensus(min_freq=0.5, use_tree_weights=False) on trees weighted 5, 1, 1 contains AB, which one tree in three has")
+    return None
+
+
+def _added_w(tl, ns):
+    import dendropy
+    ta = dendropy.TreeArray(taxon_namespace=ns, use_tree_weights=False)
+    for t in tl:
+        ta.add_tree(t)
+    return ta.split_distribution
 
 
 def native_stale_summary(modname=None, qual=None):
@@ -426,6 +503,10 @@ def _states(c):
 
 
 def replay(ctx, rec):
+    if str(rec.get("obligation", "")).startswith(("weights-flag-reaches", "TreeList._get_tree_array.hands-on[use_tree_weights")):
+        w = native_weights_flag_ignored()
+        print(w or "use_tree_weights=False gives plain tree counts on every route of the probe")
+        return w is None
     if str(rec.get("obligation", "")).startswith("flag-reaches"):
         w = native_stale_summary()
         print(w or "every summary route with default arguments describes the trees as they are now on the probe")
